@@ -147,11 +147,34 @@ def auto_twins(prop, funcs, cap=60):
     for mod, qual in sorted(funcs):
         if qual == '<module>':
             continue
-        for how in ('pass', 'tmpret', 'ifswap', 'doc'):
+        for how in ('pass', 'tmpret', 'ifswap', 'doc', 'guard', 'alias', 'yoda', 'notin', 'retelse', 'comprename', 'mergeif', 'splitif', 'demorgan'):
             jobs.append((hashlib.sha256(('%s|%s|%s|%s' % (prop, mod, qual, how)).encode()).hexdigest(), mod, qual, how))
     jobs.sort()
     return [{'prop': prop, 'kind': 'S', 'name': 'auto:%s:%s:%s' % (how, mod.split('.')[-1], qual), 'auto': (mod, qual, how), 'rule': None}
             for _, mod, qual, how in jobs[:cap * 3]], cap
+
+
+def independent_twins(prop, funcs):
+    """behaviour-preserving refactorings written by independent sub-agents (seeded/_twins*/<Cxx>/<i>/patch.diff) that touch a module
+    the property's rules analysed: each must leave the check silent"""
+    import glob
+    import re
+    mods = {m for m, _q in funcs or ()}
+    out = []
+    for pf in sorted(glob.glob(os.path.join(VERIF, 'seeded', '_twins*', 'C??', '*', 'patch.diff'))):
+        with open(pf) as f:
+            files = re.findall(r'^diff --git a/(\S+)', f.read(), re.M)
+        touched = set()
+        for fl in files:
+            if fl.endswith('.py'):
+                parts = fl[:-3].split('/')
+                if parts[-1] == '__init__':
+                    parts = parts[:-1]
+                touched.add('.'.join(parts))
+        if touched & mods:
+            rel = os.path.relpath(os.path.dirname(pf), os.path.join(VERIF, 'seeded'))
+            out.append({'prop': prop, 'kind': 'S', 'name': 'twin:%s' % rel, 'patch': pf, 'rule': None})
+    return out
 
 
 def variants_for(prop):
@@ -170,7 +193,7 @@ def run_for(prop, root, jobs=None, funcs=None):
     n_auto_cap = 0
     if funcs:
         av, n_auto_cap = auto_twins(prop, funcs)
-        vs = vs + av
+        vs = vs + av + independent_twins(prop, funcs)
     jobs = jobs or min(16, max(1, len(vs)))
     res = []
     if vs:
@@ -181,6 +204,7 @@ def run_for(prop, root, jobs=None, funcs=None):
     auto_ok = [r for r in auto if r['verdict'] == 'ok']
     res = [r for r in res if 'auto' not in r or r['verdict'] not in ('inapplicable',)]
     summary = {'variants': len(res), 'automatic_twins_silent': len(auto_ok),
+               'independent_refactorings_silent': sum(1 for r in res if r['name'].startswith('twin:') and r['verdict'] == 'ok'),
                'breaking_fired': sum(1 for r in res if r['kind'] == 'B' and r['verdict'] == 'ok'),
                'twins_silent': sum(1 for r in res if r['kind'] == 'S' and r['verdict'] == 'ok'),
                'inapplicable': sum(1 for r in res if r['verdict'] == 'inapplicable'),
